@@ -34,8 +34,8 @@ type C20Plan struct {
 func genC20(r *sim.Rng, tier string) any {
 	p := &C20Plan{}
 	// a few codes so that waiters and requests meet; plus codes around the table boundary
-	codes := []int{11, 13, 17, 19, 22, 27, 32, 34, 35, 2, 0, 39, 40, 41, 100, 255, r.Intn(256)}
-	hot := []int{codes[r.Intn(11)], codes[r.Intn(11)]}
+	codes := []int{11, 13, 17, 19, 22, 23, 22, 27, 32, 34, 35, 2, 0, 39, 40, 41, 100, 255, r.Intn(256)}
+	hot := []int{codes[r.Intn(13)], codes[r.Intn(13)]}
 	pickCode := func() int {
 		if r.Bool(0.6) {
 			return hot[r.Intn(2)]
@@ -59,6 +59,9 @@ func genC20(r *sim.Rng, tier string) any {
 				if code == 35 {
 					ops = append(ops, C20Op{Op: "wait", Code: pickCode()})
 					waiters++
+				} else if (code == 22 || code == 23) && r.Bool(0.6) {
+					// a well-formed lock / unlock: the agent's lock state must not change how waiting works
+					ops = append(ops, C20Op{Op: map[int]string{22: "lock", 23: "unlock"}[code], Code: code})
 				} else {
 					ops = append(ops, C20Op{Op: "req", Code: code})
 				}
@@ -333,11 +336,18 @@ func execC20(t *testing.T, raw json.RawMessage) *sim.Outcome {
 						rq := &reqRec{who: who, code: op.Code}
 						setf(&rq.send, s.Stamp())
 						st.addReq(rq)
-						body := []byte{byte(op.Code)}
-						if op.Code != 1 && op.Code != 11 && op.Code != 19 && op.Code != 32 {
-							body = append(body, []byte("x")...)
+						switch op.Op {
+						case "lock":
+							cli.Lock([]byte("pw"))
+						case "unlock":
+							cli.Unlock([]byte("pw"))
+						default:
+							body := []byte{byte(op.Code)}
+							if op.Code != 1 && op.Code != 11 && op.Code != 19 && op.Code != 32 {
+								body = append(body, []byte("x")...)
+							}
+							cli.Forward(body) // the reply (or the end of the connection) does not matter here
 						}
-						cli.Forward(body) // the reply (or the end of the connection) does not matter here
 						setf(&rq.reply, s.Stamp())
 					}
 				}
